@@ -252,10 +252,14 @@ class LayoutExtractor(object):
                         region = RegionLayout(id, polygon)
                         regions.append(region)
                 if self.detect_lines:
+                    line_id_suffix = ''
                     if not self.detect_regions:
                         regions = page_layout.regions
+                        if rot > 0:
+                            # the supplied regions receive lines once per orientation: keep the line ids distinct
+                            line_id_suffix = '_{}'.format(rot)
                     regions = helpers.assign_lines_to_regions(
-                        b_list, h_list, t_list, regions)
+                        b_list, h_list, t_list, regions, line_id_suffix=line_id_suffix)
                 if self.detect_regions:
                     page_layout.regions += regions
 
